@@ -40,7 +40,11 @@ LEAF_TEXTS = TEXTS
 PARENT_TEXTS = ['t1', 'hello world', 'tail ', ' lead', 'a  b']      # D1: an element with children carries single-line, field-free text
 
 
-def gen_abbr_case(rng, d2=False):
+FIELD_PARENT_TEXTS = ['a ${1:one} b', 'before ${1:one}${2:two} after', '${1}', 'x ${2:p}${1:q}${3} y', '${1:one} ${2:two}', 'pre ${0}']
+
+
+def gen_abbr_case(rng, d2=False, field_parents=False, flags=None):
+    flags = flags if flags is not None else {}
     """D1: documented grammar.  D2 (separate cases): at least one element that has BOTH a multi-line text
     and children - built to hit the recorded finding, never mixed into D1."""
     tree = gen_abbr.gen_tree(rng, names=NAMES, p_text=0.25, texts=TEXTS, attrs=ATTRS, p_attr=0.3, p_class=0.3, p_id=0.2, p_nameless=0.08,
@@ -56,7 +60,12 @@ def gen_abbr_case(rng, d2=False):
             if n.kind == 'e' and n.children:
                 parents.append(n)
                 if n.text is not None:
-                    n.text = rng.choice(PARENT_TEXTS)
+                    if field_parents and rng.random() < 0.5:
+                        # the snippet feature: children are placed at the first field of the value (content oracles only, no depth rule)
+                        n.text = rng.choice(FIELD_PARENT_TEXTS)
+                        flags['field_parent'] = True
+                    else:
+                        n.text = rng.choice(PARENT_TEXTS)
             fix(n.children)
     fix(tree)
     if d2:
@@ -87,6 +96,10 @@ def no_closer(stream):
     return [[t[0], t[1], t[2]] if t[0] == 'open' else t for t in stream]
 
 
+def visible_field(index, placeholder, **kw):
+    return '⟦%s⟧' % placeholder
+
+
 class Mon:
     def __init__(self, ctx):
         import emmet
@@ -94,11 +107,13 @@ class Mon:
         self.expand = emmet.expand
 
     def run(self, abbr, syntax, opts):
-        return core.call(self.expand, abbr, {'syntax': syntax, 'options': dict(opts)})
+        o = dict(opts)
+        o['output.field'] = visible_field       # an empty tabstop must stay visible in the content stream
+        return core.call(self.expand, abbr, {'syntax': syntax, 'options': o})
 
-    def check(self, abbr, syntax, fopts, copts, dopts, d2=False):
+    def check(self, abbr, syntax, fopts, copts, dopts, d2=False, skip_depth=False):
         ctx = self.ctx
-        case = {'abbr': abbr, 'syntax': syntax, 'format_options': fopts, 'comment_options': copts, 'depth_options': dopts, 'd2': d2}
+        case = {'abbr': abbr, 'syntax': syntax, 'format_options': fopts, 'comment_options': copts, 'depth_options': dopts, 'd2': d2, 'skip_depth': skip_depth}
         rb = self.run(abbr, syntax, {'output.format': False})
         if rb[0] == 'exc':
             ctx.ev('baseline-error')
@@ -154,7 +169,7 @@ class Mon:
                 ctx.violation('self-closing-marks-differ', dict(case, which='selfclose-pair'), {'xhtml': closers['xhtml'][:30], 'xml': closers['xml'][:30]})
         out = variant(dopts, 'depth-rule', 'oracle:indent-equals-depth')
         if out is not None:
-            why = depth_rule(out, dopts)
+            why = None if skip_depth else depth_rule(out, dopts)
             if why:
                 ctx.violation('indent-not-depth', dict(case, which='depth-rule'), {'why': why[0], 'shape': why[1], 'output': out[:500]})
             if d2:
@@ -216,7 +231,8 @@ def run_shard(desc, ctx):
     try:
         for i in range(desc['n']):
             d2 = (i % 10 == 9)
-            abbr = gen_abbr_case(rng, d2)
+            flags = {}
+            abbr = gen_abbr_case(rng, d2, field_parents=(i % 5 == 3), flags=flags)
             if abbr is None:
                 continue
             syntax = SYNTAXES[i % 6]
@@ -230,7 +246,7 @@ def run_shard(desc, ctx):
                      'output.baseIndent': rng.choice(['', '  ', '\t', '   ']), 'output.newline': rng.choice(['\n', '\r\n']),
                      'output.inlineBreak': rng.choice([0, 1, 2, 3, 5]), 'output.formatLeafNode': rng.random() < 0.2,
                      'output.formatForce': rng.choice([[], ['body'], ['p', 'li']])}
-            mon.check(abbr, syntax, fopts, copts, dopts, d2)
+            mon.check(abbr, syntax, fopts, copts, dopts, d2, skip_depth=bool(flags.get('field_parent')))
     finally:
         pr.uninstall()
     for k, v in pr.reach().items():
@@ -238,7 +254,7 @@ def run_shard(desc, ctx):
 
 
 def replay(case, ctx):
-    Mon(ctx).check(case['abbr'], case['syntax'], case['format_options'], case['comment_options'], case['depth_options'], case.get('d2', False))
+    Mon(ctx).check(case['abbr'], case['syntax'], case['format_options'], case['comment_options'], case['depth_options'], case.get('d2', False), case.get('skip_depth', False))
 
 
 def _multiline_text_then_inline_children(rec):
